@@ -66,7 +66,11 @@ class History:
                 data = self.values_for(src, n)[:, 0]
                 with warnings.catch_warnings():
                     warnings.simplefilter("ignore")
-                    h = physt.h1(data, src.binning)
+                    if rng.random() < 0.5:
+                        h = physt.h1(data, src.binning)
+                    else:
+                        # the public constructor over the other one's binning (empty, or with the other one's contents)
+                        h = type(src)(src.binning) if rng.random() < 0.5 else type(src)(src.binning, np.asarray(src.frequencies).copy())
             elif kind == "1d_huge":
                 # bins wide enough for values whose square is not a finite double: statistics may give up (NaN), operations may not
                 e = [-1e200, -1.0, 0.0, 2.5, 1e200]
@@ -266,7 +270,7 @@ class History:
         h = self.pick()
         if h is None:
             return
-        ops = ["fill", "fill", "fill_n", "fill_n", "fill_w", "fill_n_w", "imul", "idiv", "iadd_copy", "iadd_peer", "set_dtype", "normalize_inplace", "merge_inplace", "meta", "isub", "read"]
+        ops = ["fill", "fill", "fill_n", "fill_n", "fill_w", "fill_n_w", "imul", "idiv", "iadd_copy", "iadd_peer", "set_dtype", "normalize_inplace", "merge_inplace", "meta", "isub", "read", "restore_from_backup"]
         if h.is_adaptive():
             ops += ["fill_grow", "fill_n_grow", "fill_grow", "iadd_grown"]
         elif all(type(b).__name__ == "FixedWidthBinning" for b in h.binnings):
@@ -294,6 +298,13 @@ class History:
                     h.fill_n(arg)
                 if op == "fill_n_grow" and n:
                     self.stats["grow"] += 1
+            elif op == "restore_from_backup":
+                # contents moved between a histogram and its backup copy through the public setters: the two stay two histograms
+                backup = h.copy()
+                self.add(backup)
+                self.direct(h, lambda: (setattr(h, "frequencies", backup.frequencies), setattr(h, "errors2", backup.errors2)), "frequencies= / errors2= from a backup copy")
+                self.note(f"restore {type(h).__name__} from its backup")
+                return
             elif op == "set_adaptive":
                 h.set_adaptive(True)  # from now on fills may grow the bins of this object (and of nothing else)
                 try:
